@@ -49,10 +49,38 @@ class FactoryRecorder:
             yield self
 
 
+def probstep_outside_domain(mspec, model, g, grid=None):
+    """probability-step grids place states and cell boundaries at probability mid-points, which are undefined where the measure has
+    no mass: one-sided measures and grids with a massless gap are outside the domain (same rule as the C13 check).  Returns the
+    reason, or None."""
+    if g.get("ctor") != "probstep" or "margins" in mspec:
+        return None
+    dens = model.levy_triplet.nu.__call__
+    al, br = W.activity_index(mspec), W.density_breakpoints(mspec)
+    m_r, _ = Q.integrate_xn(dens, g["h"] / 2, math.inf, 0, br, al)
+    m_l, _ = Q.integrate_xn(dens, -math.inf, -g["h"] / 2, 0, br, al)
+    if min(m_r, m_l) < 1e-6 * (m_r + m_l):
+        return "one-sided measure for a probability-step grid"
+    if grid is not None:
+        ax = np.asarray(grid.axes[0], dtype=float)
+        for lo, hi in zip(ax[:-1], ax[1:]):
+            if lo * hi > 0:
+                mg, _ = Q.integrate_xn(dens, float(lo), float(hi), 0, br, al)
+                if mg < 1e-9 * (m_r + m_l):
+                    return "probability-step grid with a massless gap (no probability mid-point)"
+    return None
+
+
 def build_grid_and_model(mspec, gspec, nref):
     model = W.build_any_model(mspec)
     g = dict(gspec)
+    why = probstep_outside_domain(mspec, model, g)
+    if why:
+        raise G.OutsideDomain(why)
     grid = G.build_grid(g, model)
+    why = probstep_outside_domain(mspec, model, g, grid)      # (the cell boundaries of level 0 are probability mid-points too)
+    if why:
+        raise G.OutsideDomain(why)
     for _ in range(nref):
         grid.refine()
     return model, grid, g
